@@ -8,6 +8,7 @@ import TantivyModel.Proofs.GrammarCharsPrintList
 import TantivyModel.Proofs.GrammarCharsNested
 import TantivyModel.Proofs.GrammarCharsBoost
 import TantivyModel.Proofs.GrammarCharsText
+import TantivyModel.Proofs.GrammarCharsLenientTotal
 import TantivyModel.Proofs.GrammarFoldSafe
 import TantivyModel.Proofs.GrammarFoldSafeN
 import TantivyModel.Model.Grammar.Agree
@@ -289,6 +290,29 @@ theorem C16_chars_total (guard : Bool) (s : Str) :
     grammar has no panic left: for every text -/
 theorem C16_strict_never_panics_with_guard (s : Str) : parseStrictWith true s ≠ .panic :=
   parseStrictWith_guarded_ne_panic s
+
+/-- **the strict grammar of the source at hand never panics**: the guard is not a hypothesis here —
+    it is the constant the extractor reads from `literal` in query_grammar.rs
+    (`GRAMMAR_LITERAL_GUARDS_FIELDLESS_EXISTS`); a source without the guard makes this theorem fail
+    to build -/
+theorem C16_strict_never_panics (s : Str) : parseStrict s ≠ .panic :=
+  parseStrict_ne_panic s
+
+/-- once `set_infallible` has its progress guard, the lenient grammar has no endless loop left:
+    for every text (by induction over the four mutually recursive parsers and the set loop) -/
+theorem C16_lenient_never_loops_with_guard (s : Str) : parseLenientWith true s ≠ .diverges :=
+  parseLenientWith_guarded_ne_diverges s
+
+/-- **the lenient grammar of the source at hand never loops** (the guard is the extracted constant
+    `GRAMMAR_SET_LOOP_GUARD`, read from `set_infallible`) -/
+theorem C16_lenient_never_loops (s : Str) : parseLenient s ≠ .diverges :=
+  parseLenient_ne_diverges s
+
+/-- without the guard `IN [` followed by U+0085 loops forever (the earlier finding), with it the
+    parser returns -/
+example : astInf false 6 ['I', 'N', ' ', '[', Char.ofNat 0x85] = .diverges
+    ∧ (match astInf true 6 ['I', 'N', ' ', '[', Char.ofNat 0x85] with | .diverges => false | .ok _ _ _ => true) = true :=
+  ⟨by rfl, by rfl⟩
 
 /-- without the guard `+ *` panics (the known finding), with it `+ *` is a syntax error -/
 theorem C16_strict_panic_witness :
